@@ -857,6 +857,17 @@ std::string sample(Grammar const &G, Node const &n, SK sk, vf::rng &g, unsigned 
   auto kid = [&](std::size_t i, SK s) { return sample(G, *n.ch[i], s, g, depth); };
   auto digits = [&] {
     std::string d;
+    // mostly 1-2 digits; sometimes a magnitude at or beyond the limits of the integer types (the parsers must fail,
+    // not wrap, when the magnitude does not fit)
+    switch (g.below(12))
+    {
+    case 0: return std::string("2147483647");
+    case 1: return std::string("2147483648");
+    case 2: return std::string("4294967296");
+    case 3: return std::string("9223372036854775808");
+    case 4: return std::string("99999999999999999999");
+    default: break;
+    }
     for (std::size_t i = g.below(2) + 1; i > 0; --i)
       d += static_cast<char>('0' + g.below(10));
     return d;
